@@ -686,6 +686,15 @@ func (d *dealer) syncMatchProcedure(procedure wamp.URI) (*registration, bool) {
 func (d *dealer) syncCall(caller *wamp.Session, msg *wamp.Call) {
 	reg, ok := d.syncMatchProcedure(msg.Procedure)
 	if !ok || len(reg.callees) == 0 {
+		// If this is a later chunk of a pending progressive call, whose
+		// procedure is gone or which names another procedure, the call ends
+		// here with that error (and once only, which syncCancel ensures).
+		pendingID := requestID{session: caller.ID, request: msg.Request}
+		if _, pending := d.invocationByCall[pendingID]; pending {
+			d.syncCancel(caller, &wamp.Cancel{Request: msg.Request},
+				wamp.CancelModeKillNoWait, wamp.ErrNoSuchProcedure, nil)
+			return
+		}
 		// If no registered procedure, send error.
 		d.trySend(caller, &wamp.Error{
 			Type:    msg.MessageType(),
